@@ -176,6 +176,9 @@ class StoreProbe(Q.QueueStorage):
 
     def _maybe_gate(self, where, name, args, force_name=False):
         lab = self.lab
+        only = lab.cfg.get('gate_ops')
+        if only is not None and name not in only:
+            return False
         if self.gate_p and (force_name or name in self.GATED) and not lab.draining \
                 and lab.rnd.random() < self.gate_p:
             g = Gate('store', (where, name, args[0] if (args and name != 'write') else None))
@@ -306,12 +309,20 @@ class GatedRelay(Relay):
             g.ev.wait()
             kind, out = g.payload if g.payload is not None else lab.choose_outcome(m, rc, attempts)
             if kind == 'map':
-                d = {r: (cls_of(out[r]), reply_of(out[r])) for r in rc}
+                # a recipient the mapping does not mention has not been reported at all ('A')
+                d = {r: ((cls_of(out[r]), reply_of(out[r])) if r in out else ('A', None)) for r in rc}
             elif kind == 'seq':
-                d = {r: (cls_of(x), reply_of(x)) for r, x in zip(rc, out)}
+                # a sequence is positional: result k belongs to the k-th recipient offered; a recipient
+                # beyond the end of a short sequence has not been reported at all ('A'), surplus
+                # results of a long one belong to nobody
+                d = {}
+                for k, r in enumerate(rc):
+                    if r in d and d[r][0] != 'A':
+                        continue          # duplicate address: the first report stands
+                    d[r] = (cls_of(out[k]), reply_of(out[k])) if k < len(out) else ('A', None)
             else:
                 d = {r: (cls_of(out), reply_of(out)) for r in rc}
-            lab.log('attempt_end', m, rc, kind, d, attempts)
+            lab.log('attempt_end', m, rc, kind, d, attempts, (len(out) - len(rc)) if kind == 'seq' else 0)
             if kind in ('temp', 'perm', 'exc'):
                 raise out
             return out
@@ -320,7 +331,8 @@ class GatedRelay(Relay):
 
 
 class RealRelayProbe(Relay):
-    """A real slimta relay (StaticSmtpRelay / StaticLmtpRelay against a scripted Downstream)
+    """A real slimta relay (StaticSmtpRelay / StaticLmtpRelay against a scripted Downstream, HttpRelay against
+    a scripted HTTP next hop, PipeRelay / DovecotLdaRelay / MaildropRelay running a real program)
     behind a probe that records what the relay reported per recipient. No gates: the I/O is real."""
 
     def __init__(self, lab, kind):
@@ -332,8 +344,12 @@ class RealRelayProbe(Relay):
         self.active = 0
         self.plans = {}
         self.down = None
-        if kind in ('pipe', 'pipe-one'):
+        self.http = None
+        if kind in self.PIPE_KINDS:
             self._init_pipe(kind)
+            return
+        if kind == 'http':
+            self._init_http()
             return
         lmtp = kind == 'lmtp'
         self.down = Downstream(self._script, lmtp=lmtp, pipelining=lab.rnd.random() < 0.5)
@@ -342,7 +358,59 @@ class RealRelayProbe(Relay):
                          connect_timeout=5.0, command_timeout=5.0, data_timeout=5.0,
                          idle_timeout=lab.cfg.get('relay_idle'), pool_size=lab.cfg.get('relay_pool_size'))
 
+    # ---- HTTP relay: the real HttpRelay (with its connection pool) against the scripted HTTP next hop
+    # of vf.poollab (own request reader, spoken over socket pairs)
+    HTTP_PROFILE = ['ok', 'ok', 'ok', 'r450', 'r550', 'r451', 's404', 's500', 's503', 's302', 'close', 'okclose',
+                    'refuse']
+
+    def _init_http(self):
+        from vf.poollab import HttpDown
+        from slimta.relay.http import HttpRelay
+        lab = self.lab
+        probe = self
+
+        class _Obs(object):          # the part of a PoolLab that HttpDown talks to
+            def script(self, ctx, stage):
+                return probe._http_script(ctx, stage)
+
+            def conn_opened(self, n):
+                pass
+
+            def conn_closed(self, n, who):
+                pass
+
+            def ev(self, *a):
+                pass
+        self.http = HttpDown(_Obs())
+        lab._cleanup.append(self.http.stop)
+        self.inner = HttpRelay(self.http.url, pool_size=lab.cfg.get('relay_pool_size'), ehlo_as='verif.test',
+                               timeout=5.0, idle_timeout=lab.cfg.get('relay_idle'))
+
+    def _http_script(self, ctx, stage):
+        lab = self.lab
+        rnd = lab.rnd
+        prof = lab.cfg.get('http_profile', self.HTTP_PROFILE)
+        if stage == 'connect':
+            if lab.draining:
+                return ('ok',)
+            plan = rnd.choice(prof)
+            self.plans[('c', ctx['conn'])] = plan
+            return ('refuse',) if plan == 'refuse' else ('ok',)
+        # one plan per request; the first request of a connection uses the plan drawn at connect time
+        plan = self.plans.pop(('c', ctx['conn']), None) or rnd.choice(prof)
+        if lab.draining:
+            plan = rnd.choice(['ok', 'r550'])
+        lab.log('http_plan', ctx.get('marker'), plan)
+        if plan[0] == 'r':
+            return ('reply', plan[1:])
+        if plan[0] == 's':
+            return ('status', int(plan[1:]))
+        if plan in ('close', 'okclose'):
+            return (plan,)
+        return ('ok',)
+
     # ---- pipe relay: a real delivery program (sh) whose exit status / output is planned per recipient
+    PIPE_KINDS = ('pipe', 'pipe-one', 'dovecot', 'maildrop')
     PIPE_SCRIPT = (
         'o=$(cat "$2/plan-$1" 2>/dev/null)\n'
         'case "$o" in\n'
@@ -362,7 +430,25 @@ class RealRelayProbe(Relay):
         os.makedirs(self.pdir)
         lab._cleanup.append(lambda d=self.pdir: shutil.rmtree(d, ignore_errors=True))
         args = ['/bin/sh', '-c', self.PIPE_SCRIPT, 'deliver', '{recipient}', self.pdir]
-        if kind == 'pipe-one':
+        if kind in ('dovecot', 'maildrop'):
+            # the two shipped specialisations (own exit-status conventions) running a stand-in for the
+            # delivery agent: an executable that maps the documented argument layout onto PIPE_SCRIPT
+            from slimta.relay.pipe import DovecotLdaRelay, MaildropRelay
+            core = os.path.join(self.pdir, 'core.sh')
+            with open(core, 'w') as f:
+                f.write(self.PIPE_SCRIPT)
+            prog = os.path.join(self.pdir, 'agent')
+            with open(prog, 'w') as f:
+                if kind == 'dovecot':       # agent -f <sender> -d <recipient> <pdir>
+                    f.write('#!/bin/sh\nexec /bin/sh "$5/core.sh" "$4" "$5"\n')
+                else:                       # agent -f <sender> <recipient> <pdir>
+                    f.write('#!/bin/sh\nexec /bin/sh "$4/core.sh" "$3" "$4"\n')
+            os.chmod(prog, 0o755)
+            if kind == 'dovecot':
+                self.inner = DovecotLdaRelay(prog, timeout=0.25, extra_args=[self.pdir])
+            else:
+                self.inner = MaildropRelay(prog, timeout=0.25, extra_args=['{recipient}', self.pdir])
+        elif kind == 'pipe-one':
             class PipeOne(PipeRelay):
                 per_recipient = False
             self.inner = PipeOne(args, timeout=0.25)
@@ -370,7 +456,7 @@ class RealRelayProbe(Relay):
             self.inner = PipeRelay(args, timeout=0.25)
 
     def _before(self, envelope, rc):
-        if self.kind not in ('pipe', 'pipe-one'):
+        if self.kind not in self.PIPE_KINDS:
             return
         lab = self.lab
         prof = lab.cfg.get('pipe_profile', ['ok', 'ok', 'ok', 'temp', 'temp', 'temperr', 'perm', 'permerr', 'sig'])
@@ -442,9 +528,14 @@ class RealRelayProbe(Relay):
 
 
 class Lab(object):
-    """One history. cfg keys (all optional): backend, store_pool, relay_pool, backoffs,
-    profile, gate_p, synth_wait, nmsg, rcpts, null_sender_p, prepop, steps, flush_p,
-    headers_only, bounce_none_p, sep_bounce_queue, real_event."""
+    """One history. cfg keys (all optional): backend, store_pool, relay_pool, pool_objects (hand the Queue
+    gevent Pool objects instead of sizes), backoffs (table ending in None, or 'default' = Queue(backoff=None)),
+    profile, rcpt_profile, seq_len_p / map_omit_p (per-recipient results shorter / longer than, or silent about
+    part of, the recipient list), script + script_shape (map, map-rev, seq, seq-short, seq-long), gate_p,
+    gate_ops (restrict storage gates, e.g. ['load']), synth_wait, nmsg, rcpts, dup_rcpts (an address listed
+    twice), rcpt_style, null_sender_p, prepop, prepop_offsets, steps, flush_p, overshoot_p (timers firing late),
+    real_relay (smtp, lmtp, http, pipe, pipe-one, dovecot, maildrop), headers_only, body, extra_hdr,
+    bounce_tpl (key of BOUNCE_TEMPLATES), reply_style, bounce_none_p, sep_bounce_queue."""
 
     def __init__(self, cfg, seed, scratch):
         global CURRENT
@@ -548,6 +639,9 @@ class Lab(object):
                                 gate_p=cfg.get('gate_p', 0.0) if yielding else 0.0)
         self.relay = RealRelayProbe(self, cfg['real_relay']) if cfg.get('real_relay') else GatedRelay(self)
         self.backoffs = cfg.get('backoffs', [0, 0, None])
+        default_backoff = self.backoffs == 'default'
+        if default_backoff:
+            self.backoffs = [None]       # what the documented default policy does: never retry
 
         def backoff(env, attempts):
             tbl = self.backoffs
@@ -555,12 +649,21 @@ class Lab(object):
             self.log('backoff', marker(env), attempts, w, list(env.recipients))
             return w
 
+        bounce_cls = Bounce
+        if cfg.get('bounce_tpl'):
+            # documented customisation: class attributes of a Bounce subclass (text with bare LF or bytes;
+            # converted by Bounce itself on first use); the raw templates are put back at the start of
+            # every history, so that conversion really runs each time
+            ht, ft, rj = BOUNCE_TEMPLATES[cfg['bounce_tpl']]
+            bounce_cls = LAB_BOUNCE_CLASSES[cfg['bounce_tpl']]      # module-level: backends pickle the bounce
+            bounce_cls.header_template, bounce_cls.footer_template, bounce_cls.recipient_join = ht, ft, rj
+
         def factory(env, reply):
             orig = marker(env)
             if cfg.get('bounce_none_p') and self.rnd.random() < cfg['bounce_none_p']:
                 self.log('bounce_factory', None, orig, list(env.recipients), reply.code, reply.message)
                 return None
-            b = Bounce(env, reply, headers_only=bool(cfg.get('headers_only')))
+            b = bounce_cls(env, reply, headers_only=bool(cfg.get('headers_only')))
             bm = 'b%d' % next(self.bcount)
             b.headers[MARK] = bm
             self.log('bounce_factory', bm, orig, list(env.recipients), reply.code, reply.message)
@@ -584,8 +687,22 @@ class Lab(object):
                 return real_b_enqueue(envelope)
             self.bounce_q.enqueue = bounce_enqueue_probe
             kw['bounce_queue'] = self.bounce_q
-        self.queue = Q.Queue(self.store, self.relay, backoff=backoff, bounce_factory=factory,
-                             store_pool=cfg.get('store_pool'), relay_pool=cfg.get('relay_pool'), **kw)
+        pools = [cfg.get('store_pool'), cfg.get('relay_pool')]
+        if cfg.get('pool_objects'):
+            # the constructor also takes ready-made gevent pools
+            from gevent.pool import Pool
+            pools = [Pool(n) if n is not None else None for n in pools]
+        self.queue = Q.Queue(self.store, self.relay, backoff=None if default_backoff else backoff,
+                             bounce_factory=factory, store_pool=pools[0], relay_pool=pools[1], **kw)
+        if default_backoff:
+            # the queue's own default policy decides; the probe only writes down what it said
+            real_backoff = self.queue.backoff
+
+            def backoff_probe(env, attempts):
+                w = real_backoff(env, attempts)
+                self.log('backoff', marker(env), attempts, w, list(env.recipients))
+                return w
+            self.queue.backoff = backoff_probe
         # observe the normal enqueue path of the delivery queue without changing it
         real_enqueue = self.queue.enqueue
 
@@ -610,13 +727,24 @@ class Lab(object):
     # ---- messages
     def new_envelope(self, k, nrcpt, sender, body=None, ndom=1):
         m = 'm%d' % k
+        cfg = self.cfg
         rc = ['r%d.%s@d%d.test' % (i, m, i % ndom) for i in range(nrcpt)]
+        if cfg.get('rcpt_style') == 'utf8':
+            rc = [(u'r%d.%s.\u00fc\u4e2d@d%d.test' % (i, m, i % ndom)) if i % 2 else r for i, r in enumerate(rc)]
+        dup = cfg.get('dup_rcpts')
+        if dup and nrcpt >= 2:
+            # the same address given twice (RCPT TO repeated; the edges do not de-duplicate)
+            rr = random.Random('dup-%r-%d' % (dup, k))
+            for _ in range(dup if isinstance(dup, int) else 1):
+                rc.insert(rr.randrange(len(rc) + 1), rc[rr.randrange(len(rc))])
         e = Envelope(sender, list(rc))
         body = body if body is not None else b'body of ' + m.encode() + b'\r\n'
-        hdr = (b'From: ' + (sender.encode() or b'<>') + b'\r\n' + MARK.encode() + b': ' + m.encode() +
-               b'\r\nSubject: test ' + m.encode() + b'\r\n\r\n')
+        hdr = (b'From: ' + (sender.encode('utf-8') or b'<>') + b'\r\n' + MARK.encode() + b': ' + m.encode() +
+               b'\r\nSubject: test ' + m.encode() + b'\r\n' + (cfg.get('extra_hdr') or b'') + b'\r\n')
         e.parse(hdr + body)
         e.client = {'name': 'client.test', 'ip': '192.0.2.1'}
+        if cfg.get('bounce_tpl'):
+            e.client['protocol'] = 'ESMTP'
         self.msgs[m] = {'rc': rc, 'sender': sender, 'id': None, 'raw': hdr + body,
                         'flat': b''.join(e.flatten()), 'enqueued': False, 'hdr': e.flatten()[0]}
         return m, e
@@ -638,8 +766,16 @@ class Lab(object):
                 if c == 'T':
                     return TransientRelayError('t', Reply('450', '4.1.0 later'))
                 return PermanentRelayError('p', Reply('550', '5.1.0 no'))
-            row = list(row) + ['D'] * (len(rc) - len(row))
             kind = self.cfg.get('script_shape', 'map')
+            row = list(row) + ['D'] * (len(rc) - len(row))
+            if kind == 'seq-short' and nth < len(rounds):
+                # one result fewer than recipients (the closing round is complete, so the history ends)
+                return 'seq', [mk(c, i) for i, c in enumerate(row[:max(1, len(rc) - 1)])]
+            if kind == 'seq-long':
+                extra = [None, TransientRelayError('t', Reply('450', '4.1.0 surplus')),
+                         PermanentRelayError('p', Reply('550', '5.1.0 surplus'))]
+                return 'seq', [mk(c, i) for i, c in enumerate(row[:len(rc)])] + \
+                    [extra[(nth + j) % 3] for j in range(1 + nth % 2)]
             if kind == 'seq':
                 return 'seq', [mk(c, i) for i, c in enumerate(row[:len(rc)])]
             items = [(r, mk(row[i], i)) for i, r in enumerate(rc)]
@@ -651,7 +787,13 @@ class Lab(object):
         if m is not None and m.startswith('b'):
             prof = self.cfg.get('bounce_profile', ['ok', 'ok', 'perm', 'temp'])
         kind = rnd.choice(prof)
+        if kind == 'seq' and len(set(rc)) < len(rc):
+            # an address listed twice: positional results could contradict each other for one address, and
+            # which of them "the relay reported for the recipient" would be undefined -- use a mapping
+            kind = 'map'
         nrep = self.cfg.get('nreplies', 2)
+        # reply texts a next hop may well send: template-looking braces, non-ASCII
+        hostile = u' {recipients} {0} {boundary} caf\u00e9 <x>' if self.cfg.get('reply_style') == 'hostile' else ''
 
         def one():
             z = rnd.choice(self.cfg.get('rcpt_profile', ['ok', 'reply', 'temp', 'temp', 'perm']))
@@ -660,25 +802,35 @@ class Lab(object):
             if z == 'reply':
                 return Reply('250', '2.0.0 fine')
             if z == 'temp':
-                return TransientRelayError('t', Reply('450', '4.1.%d later' % rnd.randrange(nrep)))
-            return PermanentRelayError('p', Reply('550', '5.1.%d no such user' % rnd.randrange(nrep)))
+                return TransientRelayError('t', Reply('450', ('4.1.%d later' + hostile) % rnd.randrange(nrep)))
+            return PermanentRelayError('p', Reply('550', ('5.1.%d no such user' + hostile) % rnd.randrange(nrep)))
         if kind == 'ok':
             return kind, None
         if kind == 'reply':
             return kind, Reply('250', '2.0.0 whole ok')
         if kind == 'temp':
-            return kind, TransientRelayError('t', Reply('451', '4.0.0 whole-message transient'))
+            return kind, TransientRelayError('t', Reply('451', '4.0.0 whole-message transient' + hostile))
         if kind == 'perm':
-            return kind, PermanentRelayError('p', Reply('554', '5.0.0 whole-message permanent'))
+            return kind, PermanentRelayError('p', Reply('554', '5.0.0 whole-message permanent' + hostile))
         if kind == 'exc':
             return kind, RuntimeError('unexpected relay exception')
         if kind == 'map':
             items = [(r, one()) for r in rc]
             if rnd.random() < 0.5:
                 rnd.shuffle(items)      # mapping order need not follow envelope.recipients
+            p = self.cfg.get('map_omit_p', 0)
+            if p and len(items) > 1 and rnd.random() < p:
+                del items[rnd.randrange(1, len(items)):]     # says nothing about some recipients
             return kind, collections.OrderedDict(items)
         if kind == 'seq':
-            return kind, [one() for r in rc]
+            out = [one() for r in rc]
+            p = self.cfg.get('seq_len_p', 0)
+            if p and rnd.random() < p:
+                if rnd.random() < 0.5 and len(out) > 1:
+                    out = out[:rnd.randrange(1, len(out))]          # shorter than the recipient list
+                else:
+                    out = out + [one() for _ in range(rnd.randint(1, 2))]   # longer
+            return kind, out
         raise ValueError(kind)
 
     # ---- quiescence
@@ -724,13 +876,18 @@ class Lab(object):
                 self.bounce_q.kill()
         except Exception:
             pass
-        if isinstance(getattr(self, 'relay', None), RealRelayProbe) and self.relay.down is not None:
-            self.relay.down.kill()
+        if isinstance(getattr(self, 'relay', None), RealRelayProbe) and \
+                (self.relay.down is not None or self.relay.http is not None):
+            if self.relay.down is not None:
+                self.relay.down.kill()
             for client in list(getattr(self.relay.inner, 'pool', ())):   # (RelayPool.kill() itself mutates the set it iterates)
                 try:
                     client.kill(block=False)
                 except Exception:
                     pass
+            if self.relay.http is not None:
+                for g in self.relay.http.greenlets:
+                    g.kill(block=False)
         for g in self.parked:
             g.payload = ('ok', None)
         self.parked = []
@@ -816,7 +973,13 @@ def _spawn_enqueue(lab, m, e):
 
 def _spawn_flush(lab, n):
     def go():
-        lab.log('flush_call', n, lab.full_quiescence())
+        # 4th field: the ids that have an entry in the queue's own timetable right now (diagnostic reading of
+        # Queue.queued, used only to tell "waiting" from "listed by the storage but not yet taken in")
+        try:
+            tt = sorted(set(i.decode() if isinstance(i, bytes) else i for _, i in lab.queue.queued))
+        except Exception:
+            tt = None
+        lab.log('flush_call', n, lab.full_quiescence(), tt)
         lab.queue.flush()
         lab.log('flush_ret', n)
     return gevent.spawn(go)
@@ -878,6 +1041,8 @@ def _run(lab):
             acts += ['release'] * 4
         if clock.next_deadline() is not None:
             acts += ['advance'] * 2 + ['delta']
+            if cfg.get('overshoot_p') and rnd.random() < cfg['overshoot_p']:
+                acts += ['overshoot'] * 2
         if nmsg < total + cfg.get('prepop', 0):
             acts += ['enqueue'] * 2
         if cfg.get('flush_p') and rnd.random() < cfg['flush_p']:
@@ -896,6 +1061,13 @@ def _run(lab):
         elif a == 'advance':
             dl = clock.fire_next()
             lab.decisions.append(('advance', dl))
+        elif a == 'overshoot':
+            # a timer that fires late (loaded machine, suspended process): the clock is already past the
+            # deadline -- possibly past the due times of other entries as well -- when the waiter wakes
+            dl = clock.next_deadline()
+            clock.now = max(clock.now, dl) + rnd.choice([0.001, 0.5, 2.0, 7.0, 30.0])
+            clock.fire_next()
+            lab.decisions.append(('overshoot', dl, clock.now))
         elif a == 'delta':
             dl = clock.next_deadline()
             if dl is not None and dl > clock.now:
@@ -1110,9 +1282,19 @@ def judge_c12(lab, H):
     waiting_at_flush = {}
     all_flush_calls = {}
     flush_ret_seq = {}
+    told_seq = {}
+    attempted = set()
+    loading = False
+    # store gates other than those between two load() entries can hold a finished attempt's re-queueing
+    # back, so "waiting" is only certain at full quiescence -- unless the history gates load() alone
+    only_load_gated = lab.cfg.get('gate_ops') is not None and set(lab.cfg['gate_ops']) <= {'load'}
     for seq, e in enumerate(lab.events):
         if e[1] == 'flush_ret':
             flush_ret_seq[e[2]] = seq
+
+    def tell(id, seq):
+        told.add(id)
+        told_seq.setdefault(id, seq)
     for seq, e in enumerate(lab.events):
         t, k = e[0], e[1]
         if k == 'prepop':
@@ -1128,7 +1310,7 @@ def judge_c12(lab, H):
             due_seq[id] = seq
             stored.add(id)
             known.add(id)
-            told.add(id)
+            tell(id, seq)
         elif k == 'store' and e[2] == 'set_timestamp':
             id = H.sid(e[3][0])
             due[id] = e[3][1]
@@ -1138,20 +1320,26 @@ def judge_c12(lab, H):
         elif k == 'store' and e[2] == 'wait':
             for ts, i in e[3]:
                 known.add(H.sid(i))
-                told.add(H.sid(i))
+                tell(H.sid(i), seq)
         elif k == 'store' and e[2] == 'load_entry':
+            loading = True
             known.add(H.sid(e[3]))
-            told.add(H.sid(e[3]))
+            tell(H.sid(e[3]), seq)
+        elif k == 'store' and e[2] == 'load_done':
+            loading = False
         elif k == 'attempt_start':
             m = e[2]
             id = H.sid(H.m2id.get(m)) if H.m2id.get(m) is not None else None
             active.add(m)
             if id is not None:
                 last_attempt_seq[id] = seq
+                attempted.add(id)
                 if id in due and t < due[id]:
                     # excused by any flush whose execution may have followed the setting of
-                    # the due time: called before this attempt and returned (if at all) after it
-                    excused = any(c < seq and flush_ret_seq.get(n, 1 << 60) > due_seq[id]
+                    # the due time: called before this attempt and returned (if at all) after it --
+                    # and after the queue was first told about the id at all (a flush that had returned
+                    # before a load() entry / wait() notice reached the queue cannot have dispatched it)
+                    excused = any(c < seq and flush_ret_seq.get(n, 1 << 60) > max(due_seq[id], told_seq.get(id, -1))
                                   for n, (c, fq) in all_flush_calls.items())
                     if not excused:
                         out.append(('early', m, {'attempt_at': t, 'due': due[id], 'attempt': e}))
@@ -1166,6 +1354,13 @@ def judge_c12(lab, H):
                 # write, a start-up load entry, a wait() announcement), not merely stored
                 waiting_at_flush[e[2]] = [i for i in stored & told
                                           if H.id2m.get(i) not in active]
+            elif loading and only_load_gated:
+                # flush() while load() is still streaming (the harness is holding the listing between two
+                # entries): an id the listing has already handed over and that has never been attempted
+                # is in the timetable (or already being dispatched) for certain
+                tt = set(e[4]) if len(e) > 4 and e[4] is not None else set()
+                waiting_at_flush[e[2]] = [i for i in stored & told & tt
+                                          if H.id2m.get(i) not in active and i not in attempted]
         elif k == 'flush_ret':
             flush_rets.add(e[2])
         elif k == 'fullq':
@@ -1191,6 +1386,25 @@ def judge_c12(lab, H):
                 out.append(('forgotten', H.id2m.get(id),
                             {'id': id, 'stored_recipients': H.final[id],
                              'note': 'drained: no timer pending, nothing in flight, still stored'}))
+    # the due time the queue writes is the one the backoff policy chose: (instant of the decision) + wait, where
+    # the instant may be read anywhere between the end of the failed attempt and the set_timestamp call
+    last_end_t = {}
+    pending = {}
+    for seq, e in enumerate(lab.events):
+        if e[1] == 'attempt_end':
+            last_end_t[e[2]] = e[0]
+        elif e[1] == 'backoff' and e[4] is not None and e[2] in H.m2id and e[2] in last_end_t:
+            pending[H.sid(H.m2id[e[2]])] = (e[2], e[4], last_end_t[e[2]])
+        elif e[1] == 'store' and e[2] == 'set_timestamp' and H.sid(e[3][0]) in pending:
+            m, w, t_end = pending.pop(H.sid(e[3][0]))
+            when, t_set = e[3][1], e[0]
+            tol = 8 * abs(when) * 2.0 ** -52
+            if when < t_end + w - tol:
+                out.append(('due-earlier-than-backoff-choice', m, {'wait': w, 'attempt_ended_at': t_end,
+                                                                   'due_written': when, 'written_at': t_set}))
+            elif when > t_set + w + tol and when > t_set:
+                out.append(('due-later-than-backoff-choice', m, {'wait': w, 'attempt_ended_at': t_end,
+                                                                 'due_written': when, 'written_at': t_set}))
     # de-duplicate (kind, marker)
     seen, uniq = set(), []
     for o in out:
@@ -1216,7 +1430,7 @@ def _expected_bounces(lab, H):
             if kind in ('map', 'seq'):
                 groups = collections.OrderedDict()
                 for r in rc:
-                    c, rep = d[r]
+                    c, rep = d.get(r, ('A', None))
                     if c == 'P':
                         groups.setdefault(rep, []).append(r)
                 for rep, rs in groups.items():
@@ -1236,7 +1450,7 @@ def _expected_bounces(lab, H):
             if kind in ('map', 'seq'):
                 groups = collections.OrderedDict()
                 for r in le[3]:
-                    c, rep = d[r]
+                    c, rep = d.get(r, ('A', None))
                     if c == 'T':
                         groups.setdefault(rep, []).append(r)
                 for rep, rs in groups.items():
@@ -1247,6 +1461,144 @@ def _expected_bounces(lab, H):
             elif kind == 'exc':
                 exp[(m, frozenset(le[3]), '450', None)] += 1
     return exp
+
+
+# custom bounce templates (class attributes of slimta.bounce.Bounce as documented): text with bare LF or
+# bytes, documented keys, one unknown key (removed), a custom recipient_join
+BOUNCE_TEMPLATES = {
+    'text': (u"""From: postmaster@verif.test
+To: {sender}
+Subject: failed {code}
+X-Unknown: [{nosuchkey}]
+
+Failed: {recipients}
+Because: {code} {message}
+From {client_name} [{client_ip}] via {protocol}
+--- original ({boundary}) ---
+""", u"\n--- end {boundary} {code} ---\n", ', '),
+    'bytes': (b"From: MAILER-DAEMON\r\nTo: {sender}\r\nSubject: Returned mail\r\n\r\n"
+              b"{recipients}\r\n\r\n[{code}] {message} {}{ {not a key} }{0}{17}\r\n==={boundary}\r\n",
+              b"\r\n==={boundary}===\r\n{sender}\r\n", '\r\n'),
+    'nofooter': (u"To: {sender}\nSubject: x\n\n{recipients}|{code} {message}|\n", b"", ';'),
+}
+
+
+class LabBounceText(Bounce):
+    pass
+
+
+class LabBounceBytes(Bounce):
+    pass
+
+
+class LabBounceNoFooter(Bounce):
+    pass
+
+
+LAB_BOUNCE_CLASSES = {'text': LabBounceText, 'bytes': LabBounceBytes, 'nofooter': LabBounceNoFooter}
+
+
+def _ref_render(tpl, table):
+    """Independent rendering of a template as documented: {key} pairs of word characters are replaced,
+    unknown keys removed, everything else literal; bare LF becomes CRLF."""
+    import re
+    if not isinstance(tpl, bytes):
+        tpl = tpl.encode('ascii')
+    tpl = re.sub(br'\r?\n', b'\r\n', tpl)
+    return re.sub(br'\{(\w+)\}', lambda mo: table.get(mo.group(1).decode('ascii'), b''), tpl)
+
+
+def _bounce_content(lab, info, frc, code, msg, flat):
+    """Judge the bytes of one bounce against what it has to say. Returns [(kind, detail)]."""
+    import re
+    out = []
+    ho = bool(lab.cfg.get('headers_only'))
+    want = info['hdr'] if ho else info['flat']
+    head, sep, body = flat.partition(b'\r\n\r\n')
+    reply_b = (code + ' ' + msg).encode('utf-8', 'replace')
+
+    def names(r):
+        return (r.encode('utf-8'), r.encode('ascii', 'xmlcharrefreplace'))
+    tpl = lab.cfg.get('bounce_tpl')
+    if tpl:
+        # harness-chosen template: the whole bounce body is determined byte for byte
+        ht, ft, rj = BOUNCE_TEMPLATES[tpl]
+        bds = set(re.findall(br'boundary_=[0-9a-f]{32}', body)) - set(re.findall(br'boundary_=[0-9a-f]{32}', want))
+        table = {'sender': info['sender'].encode('utf-8'), 'recipients': rj.join(frc).encode('ascii', 'xmlcharrefreplace'),
+                 'client_name': b'client.test', 'client_ip': b'192.0.2.1', 'protocol': b'ESMTP',
+                 'code': code.encode('ascii'), 'message': msg.encode('utf-8'), 'boundary': b'<B>'}
+        ref_head, _, ref_pre = _ref_render(ht, table).partition(b'\r\n\r\n')
+        ref = ref_pre + want + _ref_render(ft, table)
+        got = body
+        for b in bds:
+            got = got.replace(b, b'<B>')
+        if len(bds) > 1:
+            out.append(('custom-template-not-rendered-as-documented', {'why': 'several boundary values', 'n': len(bds)}))
+        elif got != ref:
+            k = next((i for i, (x, y) in enumerate(zip(got, ref)) if x != y), min(len(got), len(ref)))
+            if want not in got:
+                out.append(('original-not-embedded', {'headers_only': ho, 'template': tpl}))
+            else:
+                out.append(('custom-template-not-rendered-as-documented',
+                            {'template': tpl, 'first_difference_at': k, 'observed': got[max(0, k - 30):k + 40],
+                             'expected': ref[max(0, k - 30):k + 40]}))
+        return out
+    mo = re.search(br'boundary="([^"]+)"', head)
+    parts = body.split(b'--' + mo.group(1)) if mo else []
+    if len(parts) != 5 or parts[4] != b'--\r\n':
+        out.append(('bounce-structure-unreadable', {'parts': len(parts), 'tail': body[-60:]}))
+        # fall back to the containment tests
+        if want not in flat:
+            out.append(('original-not-embedded', {'headers_only': ho}))
+        if reply_b not in flat:
+            out.append(('reply-not-quoted', {'reply': [code, msg]}))
+        return out
+    report = parts[1] + parts[2]
+    # -- the reply, quoted in the report parts (not merely somewhere in the embedded original)
+    if reply_b not in report:
+        out.append(('reply-not-quoted', {'reply': [code, msg]}))
+    # -- exactly the failed recipients, each once
+    named = [l[2:] for l in parts[1].split(b'\r\n') if l.startswith(b'- ')]
+    left = list(named)
+    for r in frc:
+        hit = next((n for n in names(r) if n in left), None)
+        if hit is None:
+            out.append(('recipient-not-named', {'recipient': r, 'named': named[:8]}))
+        else:
+            left.remove(hit)
+    known = {}
+    for r in info['rc']:
+        for n in names(r):
+            known[n] = r
+    for n in left:
+        if n in known and known[n] not in frc:
+            out.append(('unfailed-recipient-named', {'recipient': known[n]}))
+        else:
+            out.append(('recipient-named-more-than-its-share', {'name': n, 'named': named[:8], 'failed': frc[:8]}))
+    # -- the original, byte-identical, as the whole content of the last part
+    ctype = b'text/rfc822-headers' if ho else b'message/rfc822'
+    mo = re.match(br'\r\nContent-Type: ([^\r\n]*)\r\n\r\n', parts[3])
+    if mo is None:
+        out.append(('original-not-embedded', {'headers_only': ho, 'why': 'last part has no readable header',
+                                              'part_begins': parts[3][:60]}))
+    else:
+        emb = parts[3][mo.end():]
+        if emb != want + b'\r\n':
+            if ho and emb == info['flat'] + b'\r\n' and info['flat'] != info['hdr']:
+                out.append(('body-embedded-in-headers-only', {}))
+            elif ho and emb.startswith(info['hdr']) and len(emb) > len(info['hdr']) + 2:
+                out.append(('body-embedded-in-headers-only', {'partly': True, 'surplus_bytes': len(emb) - len(want) - 2}))
+            elif want in emb:
+                out.append(('original-not-embedded', {'headers_only': ho, 'why': 'surrounded by other bytes',
+                                                      'surplus_bytes': len(emb) - len(want) - 2}))
+            else:
+                k = next((i for i, (x, y) in enumerate(zip(emb, want)) if x != y), min(len(emb), len(want)))
+                out.append(('original-not-embedded', {'headers_only': ho, 'why': 'differs', 'first_difference_at': k,
+                                                      'observed': emb[max(0, k - 20):k + 30],
+                                                      'original': want[max(0, k - 20):k + 30]}))
+        if mo.group(1) != ctype:
+            out.append(('embedded-part-mislabelled', {'content_type': mo.group(1), 'headers_only': ho}))
+    return out
 
 
 def judge_c13(lab, H):
@@ -1297,19 +1649,9 @@ def judge_c13(lab, H):
                 out.append(('bounce-sender-not-null', orig, {'sender': sender}))
             if rc != [info['sender']]:
                 out.append(('bounce-wrong-addressee', orig, {'addressed_to': rc, 'orig_sender': info['sender']}))
-            if (code + ' ' + msg).encode('utf-8', 'replace') not in flat:
-                out.append(('reply-not-quoted', orig, {'reply': [code, msg]}))
-            for r in frc:
-                if r.encode() not in flat:
-                    out.append(('recipient-not-named', orig, {'recipient': r}))
-            for r in info['rc']:
-                if r not in frc and (b'- ' + r.encode() + b'\r\n') in flat:
-                    out.append(('unfailed-recipient-named', orig, {'recipient': r}))
-            want = info['hdr'] if lab.cfg.get('headers_only') else info['flat']
-            if want not in flat:
-                out.append(('original-not-embedded', orig, {'headers_only': bool(lab.cfg.get('headers_only'))}))
-            if lab.cfg.get('headers_only') and info['flat'] in flat and info['flat'] != info['hdr']:
-                out.append(('body-embedded-in-headers-only', orig, {}))
+            for kind, detail in _bounce_content(lab, info, frc, code, msg, flat):
+                detail['bounce'] = bm
+                out.append((kind, orig, detail))
     for e in lab.events:
         if e[1] == 'bounce_misrouted':
             out.append(('bounce-not-handed-to-configured-bounce-queue', fac.get(e[2], (None,))[0], {'bounce': e[2]}))
@@ -1318,6 +1660,26 @@ def judge_c13(lab, H):
             continue
         if bm not in enq:
             out.append(('bounce-not-enqueued-via-bounce-queue', fac[bm][0], {'bounce': bm}))
+    # over the whole history: a recipient is failed for good once -- it is named in at most one bounce of its
+    # message, and never in a bounce once the relay probe has recorded it delivered
+    delivered_at = {}
+    named_in = collections.defaultdict(list)
+    for seq, e in enumerate(lab.events):
+        if e[1] == 'attempt_end':
+            for r, (c, rep) in e[5].items():
+                if c == 'D':
+                    delivered_at.setdefault((e[2], r), seq)
+        elif e[1] == 'bounce_factory':
+            bm, orig, rc, code, msg = e[2:7]
+            if orig not in lab.msgs:
+                continue
+            for r in set(rc):
+                if (orig, r) in delivered_at:
+                    out.append(('delivered-recipient-bounced', orig, {'recipient': r, 'reply': [code, msg]}))
+                named_in[(orig, r)].append([bm, code, msg])
+    for (orig, r), l in named_in.items():
+        if len(l) > 1:
+            out.append(('recipient-bounced-twice', orig, {'recipient': r, 'bounces': l[:4]}))
     # loop guard: messages ever written <= accepted + bounces expected
     nwrites = sum(1 for e in lab.events if e[1] == 'store' and e[2] == 'write')
     nacc = sum(1 for m, i in lab.msgs.items() if i['enqueued'] and not i.get('prepop') and not i.get('ext'))
